@@ -400,6 +400,10 @@ class SNum:
 
     # ---- comparisons
     def _cmp(self, o, f):
+        if isinstance(o, (float, np.floating)) and o in (float('inf'), float('-inf')):
+            # a real is strictly between -inf and +inf
+            big = o > 0
+            return SBool(z3.BoolVal(bool(f(0, 1) if big else f(1, 0)))) if f(0, 0) in (True, False) else NotImplemented
         try:
             o = SNum.lift(o)
         except Unsupported:
